@@ -328,8 +328,8 @@ func (s *streamGRPC) SendMsg(m interface{}) error {
 
 	var size uint32
 	size = uint32(len(b) - 5)
-	if int(size) > s.opts.maxReceiveMessageSize {
-		return fmt.Errorf("grpc: received message larger than max (%d vs. %d)", size, s.opts.maxReceiveMessageSize)
+	if int(size) > s.opts.maxSendMessageSize {
+		return fmt.Errorf("grpc: sent message larger than max (%d vs. %d)", size, s.opts.maxSendMessageSize)
 	}
 
 	b[0] = 0 // uncompressed
